@@ -3,6 +3,10 @@ from riolib.core import Callee, MissingAnchor, op_place, span_line, is_expansion
 from riolib.prov import Prov, show, mentions, mentions_field, walk
 from riolib.sym import Sym
 
+THOROUGH_CONFIGS = ['dot']
+WITNESSES = ['w2']
+
+
 MANIFEST = {
     "text": "Static decision of the ownership contracts visible in types and paths: a producer/consumer pairing table of every raw-ownership transfer (Box::into_raw / CString::into_raw / mem::forget vs Box::from_raw / from_raw_parts) with the owner *type* on both sides, which fixes the deallocation layout; null-guard dominance before every dereference or re-owning of a raw pointer; Buffer is move-only (no Copy, consuming operations take self by value); non-consuming operations reach no consumer; every extern \"C\" function calls its native counterpart; no use after release inside the library.",
     "technique": "static analysis: ownership pairing table + guard dominance over MIR, call-graph reachability, type-level checks",
